@@ -207,8 +207,15 @@ func (cr *consRunner) open(ch *consChain) {
 	script := ch.script
 	appOpt := recapp.Options{Hook: ch.win.appHook, RetainHeight: func(h int64) int64 { return script[h].Retain }}
 	var net *sim.Net
-	no := sim.NodeOpt{SkipTimeoutCommit: true, BlockDB: ch.bdb, StateDB: ch.sdb, EvDB: ch.evdb,
-		Txs: func(node, call int) types.Txs { return cr.txsFor(net.Nodes[0].Height()) }}
+	no := sim.NodeOpt{SkipTimeoutCommit: false, BlockDB: ch.bdb, StateDB: ch.sdb, EvDB: ch.evdb,
+		Txs: func(node, call int) types.Txs {
+			// the height being proposed, read without touching the consensus lock (held by the caller)
+			h := net.Nodes[0].Blocks.Height() + 1
+			if h == 1 {
+				h = cr.sh.InitialHeight
+			}
+			return cr.txsFor(h)
+		}}
 	if ch.app == nil {
 		no.AppOptions = &appOpt
 	} else {
@@ -216,7 +223,7 @@ func (cr *consRunner) open(ch *consChain) {
 		no.App = ch.app
 	}
 	net = sim.NewNet(rand.New(rand.NewSource(cr.r.Int63())), sim.NetOpt{Seed: cr.sh.KeySeed, Powers: powers, Faulty: faulty,
-		SkipTimeoutCommit: true, InitialHeight: cr.sh.InitialHeight, NodeOpt: func(int) sim.NodeOpt { return no }})
+		SkipTimeoutCommit: false, InitialHeight: cr.sh.InitialHeight, NodeOpt: func(int) sim.NodeOpt { return no }})
 	ch.net, ch.nd = net, net.Nodes[0]
 	ch.app = ch.nd.App
 	net.Start()
@@ -264,6 +271,7 @@ func (cr *consRunner) run() {
 		}
 		arm := cr.draw(h, base0)
 		var snap *consChain
+		standing0 := cr.standing
 		if arm.Kind != "" {
 			m.script[h] = arm
 			cr.kinds = append(cr.kinds, arm.Kind)
@@ -293,7 +301,7 @@ func (cr *consRunner) run() {
 		}
 		cr.postAudit(h, base0, arm)
 		if snap != nil && m.win.writes > 0 {
-			cr.forks(snap, h, base0, arm, m.win.writes, append([]string{}, m.win.descr...))
+			cr.forks(snap, standing0, h, base0, arm, m.win.writes)
 		}
 	}
 	if cr.prunes > 0 && cr.crashes > 0 {
@@ -411,7 +419,7 @@ func classTag(phase, class string) string {
 // inPlace audits the live databases right after a write of the prune was applied.
 func (cr *consRunner) inPlace(db *jdb) {
 	m := cr.main
-	h := m.nd.Height()
+	h := m.nd.Blocks.Height() // the committing height is already saved; no consensus lock (the caller holds it)
 	cr.learn(m, cr.t, h)
 	res := cr.a.audit(m.bdb, m.sdb, &cr.prev)
 	cr.prev = res.Desc
@@ -485,7 +493,7 @@ func (cr *consRunner) postAudit(h, base0 int64, arm armed) {
 }
 
 // forks injects a real crash before each of the W prune writes of height h, on copies taken at the boundary before h.
-func (cr *consRunner) forks(snap *consChain, h, base0 int64, arm armed, W int, mainDescr []string) {
+func (cr *consRunner) forks(snap *consChain, standing0 map[string]bool, h, base0 int64, arm armed, W int) {
 	for n := 1; n <= W; n++ {
 		f := &consChain{bdb: snap.bdb.snapshot("block"), sdb: snap.sdb.snapshot("state"), evdb: snap.evdb.snapshot("evidence"),
 			app: snap.app, win: &pruneWindow{}, script: map[int64]armed{h: arm}}
@@ -524,8 +532,8 @@ func (cr *consRunner) forks(snap *consChain, h, base0 int64, arm armed, W int, m
 		if res.Desc.Height != h {
 			cr.violation("consensus-prune-crash-height-not-persisted", fmt.Sprintf("crash before write %d of the prune after height %d: persisted height %d", n, h, res.Desc.Height), "crash", h, arm, n, descr, res, nil)
 		}
-		if !res.clean() {
-			cr.report("crash", h, arm, n, descr, res, fmt.Sprintf("node halted by a crash before write %d of %d of the prune, stores reopened", n, W))
+		if nf := fresh(res, standing0); !nf.clean() { // failures already standing at the fork point were reported there
+			cr.report("crash", h, arm, n, descr, nf, fmt.Sprintf("node halted by a crash before write %d of %d of the prune, stores reopened", n, W))
 		}
 		baseline := setOf(res)
 		// restart a node on these databases and go on
@@ -576,7 +584,6 @@ func (cr *consRunner) forks(snap *consChain, h, base0 int64, arm armed, W int, m
 		}
 		f.net.Close()
 	}
-	_ = mainDescr
 }
 
 // forkTruth: the main line's truth up to the boundary; heights from h on are learnt from the fork itself.
@@ -618,8 +625,12 @@ func (cr *consRunner) tail(n int) []string {
 func (cr *consRunner) report(phase string, h int64, arm armed, n int, descr []string, res auditResult, where string) {
 	byKey := map[string][]failure{}
 	var order []string
+	keyPhase := phase
+	if arm.Kind == "above-height" && phase != "restart" {
+		keyPhase = "rejected-retain-height" // whatever is lost here is lost although PruneBlocks refused the retain height
+	}
 	for _, f := range res.Fails {
-		key := classTag(phase, f.Class)
+		key := classTag(keyPhase, f.Class)
 		if _, ok := byKey[key]; !ok {
 			order = append(order, key)
 		}
